@@ -270,4 +270,26 @@ theorem warn_run_record (w : Warn) (ops : List Op) :
     cases op <;> cases hw : w.headerWritten <;>
       simp [Warn.step, Warn.writeHeader, hw, wroteStatus, firstStatus, written]
 
+
+/-! ### request sequences -/
+
+/-- a history-free machine answers every request of a sequence as it would answer it alone, from any state -/
+theorem runSeq_of_historyFree {σ ρ ω : Type} (step : σ → ρ → σ × ω) (h : HistoryFree step) (s0 : σ) :
+    ∀ (s : σ) (rs : List ρ), runSeq step s rs = rs.map (fun r => (step s0 r).2) := by
+  intro s rs
+  induction rs generalizing s with
+  | nil => rfl
+  | cons r rs ih => simp only [runSeq, List.map_cons, ih]; rw [h s s0 r]
+
+theorem runSeq_length {σ ρ ω : Type} (step : σ → ρ → σ × ω) (s : σ) (rs : List ρ) :
+    (runSeq step s rs).length = rs.length := by
+  induction rs generalizing s with
+  | nil => rfl
+  | cons r rs ih => simp [runSeq, ih]
+
+theorem strict_run_append (w : Strict) (a b : List Op) : Strict.run w (a ++ b) = Strict.run (Strict.run w a) b := by
+  simp [Strict.run, List.foldl_append]
+
+theorem strict_run_cons (w : Strict) (op : Op) (ops : List Op) : Strict.run w (op :: ops) = Strict.run (w.step op) ops := rfl
+
 end KinModel.Middleware
